@@ -39,6 +39,7 @@ type Engine struct {
 	sentinels map[*ssa.Global]int
 	litMaps   map[*ssa.Global][][2]string
 	litSlices map[*ssa.Global][]string
+	litStrs   map[*ssa.Global]string // string variables assigned one constant in init and only ever read
 	lemmas    []*Contract
 	axiomNames []string
 	fnVals     map[*ssa.Function]*ClosV
@@ -71,7 +72,7 @@ func loadEngine(repo string, specDir string, patterns []string) (*Engine, error)
 		return nil, fmt.Errorf("package errors: %s", strings.Join(errs, "; "))
 	}
 	e.pkgs = pkgs
-	prog, _ := ssautil.AllPackages(pkgs, ssa.BuilderMode(0))
+	prog, _ := ssautil.AllPackages(pkgs, ssa.GlobalDebug) // DebugRef instructions name single-assignment locals for contracts
 	e.prog = prog
 	for _, p := range prog.AllPackages() {
 		if strings.HasPrefix(p.Pkg.Path(), modPrefix) {
@@ -217,6 +218,13 @@ func (e *Engine) scanGlobals() {
 					continue
 				}
 				switch v := st.Val.(type) {
+				case *ssa.Const:
+					if v.Value != nil && v.Value.Kind() == constant.String {
+						if e.litStrs == nil {
+							e.litStrs = map[*ssa.Global]string{}
+						}
+						e.litStrs[g] = constant.StringVal(v.Value)
+					}
 				case *ssa.MakeMap:
 					var kvs [][2]string
 					okAll := true
@@ -291,6 +299,37 @@ func (e *Engine) scanGlobals() {
 	for g := range e.litSlices {
 		if stores[g] != 1 || mutated[g] {
 			delete(e.litSlices, g)
+		}
+	}
+	// a string variable is a constant if its only store is the one in init and every other use is a load
+	for g := range e.litStrs {
+		okG := stores[g] == 1
+		for fn := range ssautil.AllFunctions(e.prog) {
+			if !okG || !strings.HasPrefix(fnPkgPath(fn), modPrefix) {
+				continue
+			}
+			for _, b := range fn.Blocks {
+				for _, in := range b.Instrs {
+					for _, op := range in.Operands(nil) {
+						if *op != ssa.Value(g) {
+							continue
+						}
+						switch u := in.(type) {
+						case *ssa.UnOp:
+						case *ssa.Store:
+							if u.Addr != ssa.Value(g) {
+								okG = false
+							}
+						case *ssa.DebugRef:
+						default:
+							okG = false // address escapes
+						}
+					}
+				}
+			}
+		}
+		if !okG {
+			delete(e.litStrs, g)
 		}
 	}
 	var gs []*ssa.Global
@@ -400,6 +439,10 @@ func (e *Engine) typeByName(name string) types.Type {
 		name = name[1:]
 	}
 	switch name {
+	case "map[string]string":
+		return types.NewMap(types.Typ[types.String], types.Typ[types.String])
+	case "[]string":
+		return types.NewSlice(types.Typ[types.String])
 	case "string":
 		return types.Typ[types.String]
 	case "int":
@@ -735,6 +778,9 @@ func (e *Engine) fnVal(fn *ssa.Function) *ClosV {
 // with the facts describing its contents in the given state.
 func (e *Engine) literalGlobal(st *State, g *ssa.Global) (Val, bool) {
 	name := "gl" + mangle(g.Pkg.Pkg.Path()+"."+g.Name())[1:]
+	if s, ok := e.litStrs[g]; ok {
+		return Sc{StrLit(s)}, true
+	}
 	if kvs, ok := e.litMaps[g]; ok {
 		reg.declare(name, fmt.Sprintf("(declare-const %s Int)", name))
 		r := Term{name, SInt}
